@@ -119,7 +119,7 @@ _append("C01", "Numpy-typed scalar arguments, large M*N blocks in non-C order, s
 _append("C02", "Odd fft sizes, memory == cp == fft, tied used-subcarrier counts across reconfigurations and frames of equal symbol count after a narrowed band are part of the histories." + _COMMON)
 _append("C03", "Carrier index selections of every length and order (negative, wrapped, descending), on-grid duplicate delays, single-tap profiles at a non-zero delay, reverse links with one sending antenna, queries between frequency-domain transmissions; the fading reference is a copy of the generator driven through its public API." + _COMMON)
 _append("C04", "Real / float32 / integer / complex64 channels and data, three consecutive decode rounds per state, filters observed through the public decode map, Nt = 1 and Nt >= 5, pairwise scale x structure families." + _COMMON)
-_append("C05", "Resume sequences: 2-3 simulate() calls on one runner that keeps partial results with the limit raised, kept and LOWERED, mixing all-variations and single-index calls; single-precision grids; single-index run without unpacked parameters; both look-up entry points (values and confidence intervals)." + _COMMON)
+_append("C05", "Resume sequences: 2-3 simulate() calls on one runner that keeps partial results with the limit raised, kept and LOWERED, mixing all-variations and single-index calls; single-precision grids; single-index run without unpacked parameters; both look-up entry points (values and confidence intervals); every look-up also made between the two simulate() calls of one runner (query-warmed caches x grid re-assignment by add() and by item assignment)." + _COMMON)
 _append("C06", "Empty histories at every position of either operand, identical grids in descending / shuffled order, parameter objects edited after being read, observation through to_dict / getters only." + _COMMON)
 _append("C07", "Restart variants: same parameters in another insertion order; float parameters differing by less than allclose tolerances; list / tuple parameters differing only in length; typed parameter values (tuple, numpy scalar, nested list) in both formats; the interrupted runner object itself restarted below and beyond the periodic save; single-index reuse after an in-place parameter change. The file a restart reads is asked from the library's public get_partial_results_filename; the crash layer and the clock are installed process-wide." + _COMMON)
 _append("C08", "Several link-budget-scale path losses (differences below any absolute tolerance), same user part with another external part; received data judged against the REPORTED noise; a randomize() that bypasses the seam makes the model learn the raw channel from the object; vacuity measured on the model side." + _COMMON)
